@@ -15,6 +15,10 @@
 //! of the replayed history as well; `side` = for a store object that implements both traits, the fresh store first
 //! receives entries of the OTHER kind (two key-id mappings, resp. two keys), which every later observation must
 //! find unchanged.
+//! (a3) pairs of verification methods through `MethodDigest::new` / `pack` / `unpack` and the key-id store.
+//!
+//! Not every including binary uses every part.
+#![allow(dead_code)]
 
 use identity_eddsa_verifier::EdDSAJwsVerifier;
 use identity_jose::jwk::{EcCurve, Jwk, JwkParamsEc};
@@ -34,7 +38,23 @@ use vx::sr::Collector;
 use vx::stateright::{Model, Property};
 
 pub const MSG: &[u8] = b"c15 signing input";
+/// Slot codes >= NEAR_MIN do not name an issued id. NEVER = a fixed id the store never issued; the NEAR_* codes
+/// name ids DERIVED from the most recently issued id (so they resemble an issued id without ever being issued).
 pub const NEVER: u8 = 255;
+/// the most recently issued id without its last character (a proper prefix of an issued id)
+pub const NEAR_PREFIX: u8 = 254;
+/// the most recently issued id followed by "0" (an issued id is a proper prefix of it)
+pub const NEAR_EXT: u8 = 253;
+/// the most recently issued id with the ASCII case of its first letter flipped
+pub const NEAR_CASE: u8 = 252;
+/// the empty id (a prefix of every id)
+pub const NEAR_EMPTY: u8 = 251;
+pub const NEAR_MIN: u8 = 251;
+pub const NEAR: [u8; 4] = [NEAR_PREFIX, NEAR_EXT, NEAR_CASE, NEAR_EMPTY];
+/// Does the slot code name an id the store issued?
+pub fn issued(slot: u8) -> bool {
+  slot < NEAR_MIN
+}
 
 // ================================================================================================ the store under test
 
@@ -98,6 +118,13 @@ pub enum Ins {
   EcKey,
   /// Ed25519 JWK whose `d` is 3 bytes long
   MalformedD,
+  /// the key material of `Valid(seed)` with different metadata (a `kid` member): another JWK value, the same key
+  ValidKid(u8),
+  /// private Ed25519 JWK whose alg is not a registered JWS algorithm name
+  UnknownAlg,
+  /// fully private Ed25519 JWK that copies the PUBLIC JWK returned by `generate` for the slot (x, kid = that key's
+  /// thumbprint, alg) and carries the `d` of harness key 5: its public part equals a generated key's
+  XOf(u8),
 }
 /// The `public_key` argument of `sign`.
 #[derive(Serialize, Deserialize, Debug, Clone, Copy, PartialEq, Eq, Hash)]
@@ -111,12 +138,16 @@ pub enum Pk {
   NoAlg,
   /// a P-256 public key with alg EdDSA
   NonOkp,
+  /// own key, `kid` replaced by another value (differs from the key's public JWK in metadata only)
+  OtherKid,
+  /// own key, `kid` removed
+  NoKid,
 }
 #[derive(Serialize, Deserialize, Debug, Clone, Copy, PartialEq, Eq, Hash)]
 pub enum KOp {
   Generate(Gk, Ga),
   Insert(Ins),
-  /// slot = index in issuance order, or NEVER (255) = an id the store never issued
+  /// slot = index in issuance order, or a code >= NEAR_MIN = an id the store never issued (see NEVER, NEAR_*)
   Sign(u8, Pk),
   Delete(u8),
   Exists(u8),
@@ -142,6 +173,8 @@ pub enum SeqCase {
     #[serde(default, skip_serializing_if = "Mode::is_plain")]
     mode: Mode,
   },
+  /// (a3) a pair of verification methods whose digests are computed, compared and used as keys of the key-id store
+  Digest { a: MSpec, b: MSpec },
 }
 /// Run mode of a history (see the module documentation); the default is what the in-memory stores are run with.
 #[derive(Serialize, Deserialize, Debug, Clone, Copy, Default, PartialEq, Eq)]
@@ -189,9 +222,24 @@ fn p256_public_jwk_eddsa() -> Jwk {
   j
 }
 
-fn insert_jwk(v: Ins) -> Jwk {
+/// The JWK of an insert operation; `gen_public` = the public JWK `generate` returned for the slot `XOf` refers to.
+fn insert_jwk(v: Ins, gen_public: Option<&Jwk>) -> Jwk {
   match v {
     Ins::Valid(seed) => EdKey::new(seed).private_with_alg("EdDSA"),
+    Ins::ValidKid(seed) => {
+      let mut j = EdKey::new(seed).private_with_alg("EdDSA");
+      j.set_kid("c15-other-metadata");
+      j
+    }
+    Ins::UnknownAlg => EdKey::new(3).private_with_alg("C15-NO-SUCH-ALG"),
+    Ins::XOf(_) => {
+      let mut j = gen_public.cloned().unwrap_or_else(|| EdKey::new(6).public_with_alg("EdDSA"));
+      let d = EdKey::new(5).private.try_okp_params().expect("okp").d.clone();
+      if let Ok(p) = j.try_okp_params_mut() {
+        p.d = d;
+      }
+      j
+    }
     Ins::PublicOnly => EdKey::new(3).public_with_alg("EdDSA"),
     Ins::NoAlg => EdKey::new(3).private,
     Ins::WrongAlg => EdKey::new(3).private_with_alg("ES256"),
@@ -211,6 +259,24 @@ pub enum Origin {
   Gen,
   Ins(u8),
   Malformed,
+  /// inserted with the public part of the generated slot .. and a private part that does not belong to it
+  XOf(u8),
+}
+impl Origin {
+  /// Is the stored key a consistent key pair whose signatures the statement speaks about?
+  fn judged(&self) -> bool {
+    matches!(self, Origin::Gen | Origin::Ins(_))
+  }
+}
+/// Identity of the PUBLIC JWK the harness holds for a slot: two slots with the same value have equal public keys,
+/// so a signature that verifies under one verifies under the other.
+fn pubid(slots: &[MSlot], i: usize) -> u16 {
+  match slots[i].origin {
+    Origin::Gen => 1000 + i as u16,
+    Origin::Ins(seed) => seed as u16,
+    Origin::Malformed => 3,
+    Origin::XOf(j) => 1000 + j as u16,
+  }
 }
 #[derive(Clone, Debug, PartialEq, Eq, Hash)]
 pub struct MSlot {
@@ -224,6 +290,8 @@ type SlotObs = (u8, Option<u32>);
 pub struct KObs {
   slots: Vec<SlotObs>,
   never: SlotObs,
+  /// the ids derived from the most recently issued id (NEAR), empty while nothing was issued
+  near: Vec<SlotObs>,
   /// `count()` of the store (None = the store has no such method)
   count: Option<usize>,
   /// `side` mode: get_key_id of the two digests mapped before the history started (empty otherwise)
@@ -264,17 +332,44 @@ impl<B: Backend> Real<B> {
     Real { store, slots: Vec::new(), side }
   }
   fn id(&self, slot: u8) -> KeyId {
-    if slot == NEVER {
-      KeyId::new("never-issued-key-id")
+    if issued(slot) {
+      return self.slots[slot as usize].id.clone();
+    }
+    let never = KeyId::new("never-issued-key-id");
+    let last = match (slot, self.slots.last()) {
+      (NEVER, _) | (_, None) => return never,
+      (_, Some(l)) => l.id.as_str().to_string(),
+    };
+    let derived = match slot {
+      NEAR_PREFIX => {
+        let mut s = last.clone();
+        s.pop();
+        s
+      }
+      NEAR_EXT => format!("{last}0"),
+      NEAR_CASE => match last.char_indices().find(|(_, c)| c.is_ascii_alphabetic()) {
+        Some((i, c)) => {
+          let f = if c.is_ascii_lowercase() { c.to_ascii_uppercase() } else { c.to_ascii_lowercase() };
+          format!("{}{}{}", &last[..i], f, &last[i + 1..])
+        }
+        None => format!("{last}A"),
+      },
+      _ => String::new(),
+    };
+    // a derived id that coincides with an issued one (only conceivable for a store with very short ids) is not
+    // a never-issued id: fall back to the fixed one
+    if self.slots.iter().any(|s| s.id.as_str() == derived) {
+      never
     } else {
-      self.slots[slot as usize].id.clone()
+      KeyId::new(derived)
     }
   }
+  /// The public JWK passed to `sign` as the key's own: for the derived ids that of the most recently issued key.
   fn own_public(&self, slot: u8) -> Jwk {
-    if slot == NEVER {
-      EdKey::new(9).public_with_alg("EdDSA")
-    } else {
-      self.slots[slot as usize].public.clone()
+    match (issued(slot), self.slots.last()) {
+      (true, _) => self.slots[slot as usize].public.clone(),
+      (false, Some(l)) if slot != NEVER => l.public.clone(),
+      _ => EdKey::new(9).public_with_alg("EdDSA"),
     }
   }
   /// Run one operation on the real store (no judgement).
@@ -289,10 +384,14 @@ impl<B: Backend> Real<B> {
           Ok(r) => KRes::Gen(r.map_err(|e| kerr_kind(&e))),
         }
       }
-      KOp::Insert(v) => match guard(|| B::block_on(store.insert(insert_jwk(v)))) {
-        Err(p) => KRes::Panic(p),
-        Ok(r) => KRes::Ins(r.map_err(|e| kerr_kind(&e))),
-      },
+      KOp::Insert(v) => {
+        let gen_public = if let Ins::XOf(j) = v { self.slots.get(j as usize).map(|s| &s.public) } else { None };
+        let jwk = insert_jwk(v, gen_public);
+        match guard(|| B::block_on(store.insert(jwk))) {
+          Err(p) => KRes::Panic(p),
+          Ok(r) => KRes::Ins(r.map_err(|e| kerr_kind(&e))),
+        }
+      }
       KOp::Sign(slot, pk) => {
         let id = self.id(slot);
         let public = match pk {
@@ -309,6 +408,19 @@ impl<B: Backend> Real<B> {
             Jwk::from_params(own.try_okp_params().expect("okp").clone())
           }
           Pk::NonOkp => p256_public_jwk_eddsa(),
+          Pk::OtherKid => {
+            let mut j = self.own_public(slot);
+            j.set_kid("c15-not-the-keys-kid");
+            j
+          }
+          Pk::NoKid => {
+            let own = self.own_public(slot);
+            let mut j = Jwk::from_params(own.try_okp_params().expect("okp").clone());
+            if let Some(alg) = own.alg() {
+              j.set_alg(alg);
+            }
+            j
+          }
         };
         match guard(|| B::block_on(store.sign(&id, MSG, &public))) {
           Err(p) => KRes::Panic(p),
@@ -336,8 +448,15 @@ impl<B: Backend> Real<B> {
     match (op, res) {
       (KOp::Generate(..), KRes::Gen(Ok(out))) => self.slots.push(RSlot { id: out.key_id.clone(), public: out.jwk.clone() }),
       (KOp::Insert(v), KRes::Ins(Ok(id))) => {
-        let seed = if let Ins::Valid(s) = v { s } else { 3 };
-        self.slots.push(RSlot { id: id.clone(), public: EdKey::new(seed).public_with_alg("EdDSA") })
+        let public = match v {
+          Ins::Valid(s) | Ins::ValidKid(s) => EdKey::new(s).public_with_alg("EdDSA"),
+          Ins::XOf(j) => match self.slots.get(j as usize) {
+            Some(g) => g.public.clone(),
+            None => EdKey::new(6).public_with_alg("EdDSA"),
+          },
+          _ => EdKey::new(3).public_with_alg("EdDSA"),
+        };
+        self.slots.push(RSlot { id: id.clone(), public })
       }
       _ => {}
     }
@@ -367,6 +486,7 @@ impl<B: Backend> Real<B> {
     KObs {
       slots: self.slots.iter().map(|s| self.observe_id(&s.id, &s.public)).collect(),
       never: self.observe_id(&self.id(NEVER), &self.own_public(NEVER)),
+      near: if self.slots.is_empty() { Vec::new() } else { NEAR.iter().map(|c| self.observe_id(&self.id(*c), &self.own_public(*c))).collect() },
       count: B::key_count(&self.store),
       side: match (self.side, B::keyids_of_keys(&self.store)) {
         (true, Some(ids)) => (0..2u8)
@@ -385,15 +505,16 @@ impl<B: Backend> Real<B> {
 fn expected_obs(slots: &[MSlot]) -> (Vec<(u8, Option<Option<u32>>)>, usize) {
   let v = slots
     .iter()
-    .map(|s| {
+    .enumerate()
+    .map(|(i, s)| {
       let e = s.live as u8;
-      let sign = match (&s.origin, s.live) {
+      let sign = match (s.origin.judged(), s.live) {
         (_, false) => Some(None),
-        (Origin::Malformed, true) => None,
-        (o, true) => {
+        (false, true) => None,
+        (true, true) => {
           let mut mask = 0u32;
-          for (j, t) in slots.iter().enumerate() {
-            if t.origin == *o && (matches!(o, Origin::Ins(_)) || std::ptr::eq(t, s)) {
+          for j in 0..slots.len() {
+            if pubid(slots, j) == pubid(slots, i) {
               mask |= 1 << j;
             }
           }
@@ -434,12 +555,16 @@ pub struct KModel<B: Backend> {
   pub col: Arc<Collector>,
   pub diverged: Arc<AtomicBool>,
   pub mode: Mode,
+  /// offer the extended op alphabet (see `actions`)
+  pub ext: bool,
   pub backend: PhantomData<fn() -> B>,
 }
 
 fn slot_class(slots: &[MSlot], slot: u8) -> &'static str {
   if slot == NEVER {
     "never-issued-key"
+  } else if !issued(slot) {
+    "never-issued-key-resembling-an-issued-one"
   } else if slots[slot as usize].live {
     "live-key"
   } else {
@@ -449,7 +574,14 @@ fn slot_class(slots: &[MSlot], slot: u8) -> &'static str {
 
 impl<B: Backend> KModel<B> {
   pub fn new(cap: u8, track_depth: bool, col: Arc<Collector>, diverged: Arc<AtomicBool>) -> Self {
-    KModel { cap, track_depth, col, diverged, mode: Mode::default(), backend: PhantomData }
+    KModel { cap, track_depth, col, diverged, mode: Mode::default(), ext: false, backend: PhantomData }
+  }
+  /// Offer the extended op alphabet as well: inserts of known key material with other metadata, with an
+  /// unregistered alg, with the public part of a generated key; `sign` with the own public key under another / no
+  /// kid; delete / exists / sign of never-issued ids derived from the most recently issued id.
+  pub fn extended(mut self, ext: bool) -> Self {
+    self.ext = ext;
+    self
   }
   pub fn with_mode(mut self, mode: Mode) -> Self {
     self.mode = mode;
@@ -539,11 +671,18 @@ impl<B: Backend> KModel<B> {
       }
       (KOp::Insert(v), KRes::Ins(r)) => match r {
         Err(kind) => {
-          if matches!(v, Ins::Valid(_)) {
-            viol("JwkStorage::insert|valid-private-jwk|rejected", format!("Err({kind})"));
-            ok = false;
+          let mut dup = "";
+          if let Ins::Valid(seed) | Ins::ValidKid(seed) = v {
+            // the statement does not say whether key material that is ALREADY stored (and not deleted) may be
+            // inserted a second time: such a rejection is recorded, not judged
+            if (0..slots.len()).any(|j| slots[j].live && slots[j].origin == Origin::Ins(*seed)) {
+              dup = "/same-key-material-already-stored(unjudged)";
+            } else {
+              viol("JwkStorage::insert|valid-private-jwk|rejected", format!("Err({kind})"));
+              ok = false;
+            }
           }
-          label = format!("insert({}):err({kind})", ins_name(*v));
+          label = format!("insert({}{dup}):err({kind})", ins_name(*v));
         }
         Ok(id) => {
           if real.slots.iter().any(|x| x.id == *id) {
@@ -551,8 +690,14 @@ impl<B: Backend> KModel<B> {
             ok = false;
           }
           match v {
-            Ins::Valid(seed) => slots.push(MSlot { origin: Origin::Ins(*seed), live: true }),
+            Ins::Valid(seed) | Ins::ValidKid(seed) => slots.push(MSlot { origin: Origin::Ins(*seed), live: true }),
             Ins::MalformedD => slots.push(MSlot { origin: Origin::Malformed, live: true }),
+            // a store need not compare `d` with `x`: what such a key signs like is not judged, everything else is
+            Ins::XOf(j) => slots.push(MSlot { origin: Origin::XOf(*j), live: true }),
+            Ins::UnknownAlg => {
+              viol("JwkStorage::insert|unregistered-alg|accepted", "an Ed25519 JWK whose alg is no JWS algorithm was stored".into());
+              ok = false;
+            }
             Ins::PublicOnly => {
               viol("JwkStorage::insert|public-only-jwk|accepted", "a JWK without private members was stored".into());
               ok = false;
@@ -575,7 +720,7 @@ impl<B: Backend> KModel<B> {
       },
       (KOp::Sign(slot, pk), KRes::Sign(r)) => {
         let class = slot_class(&slots, *slot);
-        let malformed = *slot != NEVER && slots[*slot as usize].origin == Origin::Malformed;
+        let malformed = issued(*slot) && !slots[*slot as usize].origin.judged();
         match r {
           Ok(sig) => {
             if class != "live-key" {
@@ -584,7 +729,7 @@ impl<B: Backend> KModel<B> {
             } else {
               let own = *slot as usize;
               for (j, other) in real.slots.iter().enumerate() {
-                let same = j == own || (slots[j].origin == slots[own].origin && matches!(slots[own].origin, Origin::Ins(_)));
+                let same = pubid(&slots, j) == pubid(&slots, own);
                 let v = verifies(sig, &other.public);
                 if same && !v && !malformed {
                   viol("JwkStorage::sign|signature-does-not-verify-under-the-keys-public-jwk", format!("slot {own}, public key variant {pk:?}"));
@@ -603,7 +748,7 @@ impl<B: Backend> KModel<B> {
               viol("JwkStorage::sign|live-key|cannot-sign", format!("Err({kind})"));
               ok = false;
             }
-            label = format!("sign({class}{},{}):err({kind})", if malformed { "/malformed-d" } else { "" }, pk_name(*pk));
+            label = format!("sign({class}{},{}):err({kind})", if malformed { "/malformed-or-inconsistent-key" } else { "" }, pk_name(*pk));
           }
         }
       }
@@ -658,14 +803,15 @@ impl<B: Backend> KModel<B> {
     let obs = real.observe();
     let (want, want_count) = expected_obs(&slots);
     let target: Option<usize> = match op {
-      KOp::Sign(s, _) | KOp::Delete(s) | KOp::Exists(s) if s != NEVER => Some(s as usize),
+      KOp::Sign(s, _) | KOp::Delete(s) | KOp::Exists(s) if issued(s) => Some(s as usize),
       KOp::Generate(..) | KOp::Insert(_) if slots.len() > s.slots.len() => Some(slots.len() - 1),
       _ => None,
     };
     let name = op_name(op);
     for (i, ((e, sg), (we, wsg))) in obs.slots.iter().zip(&want).enumerate() {
       let who = if Some(i) == target { "target-key" } else { "other-key" };
-      if e != we {
+      // `exists` of a deleted id: the statement forbids "exists", it does not tie the answer to Ok(false)
+      if (*we == 1) != (*e == 1) {
         let what = if *we == 1 { "no-longer-exists" } else { "exists-although-deleted" };
         viol(&format!("JwkStorage::{name}|state|{who}-{what}"), format!("slot {i}: exists observed {e}, model {we}"));
         ok = false;
@@ -683,8 +829,15 @@ impl<B: Backend> KModel<B> {
         }
       }
     }
-    if obs.never != (0, None) {
-      viol(&format!("JwkStorage::{name}|state|never-issued-key-id-usable"), format!("{:?}", obs.never));
+    if obs.never.0 == 1 || obs.never.1.is_some() {
+      viol(&format!("JwkStorage::{name}|state|never-issued-key-id-usable"), format!("(exists, sign) = {:?}", obs.never));
+      ok = false;
+    }
+    if obs.near.iter().any(|o| o.0 == 1 || o.1.is_some()) {
+      viol(
+        &format!("JwkStorage::{name}|state|never-issued-key-id-resembling-an-issued-one-usable"),
+        format!("(exists, sign) of [issued id without its last character, issued id + \"0\", issued id with one letter's case flipped, empty id]: {:?}", obs.near),
+      );
       ok = false;
     }
     if let Some(count) = obs.count {
@@ -762,6 +915,9 @@ fn ins_name(v: Ins) -> &'static str {
     Ins::WrongAlg => "incompatible-alg",
     Ins::EcKey => "ec-key",
     Ins::MalformedD => "malformed-d",
+    Ins::ValidKid(_) => "valid-private-with-kid",
+    Ins::UnknownAlg => "unregistered-alg",
+    Ins::XOf(_) => "public-part-of-a-generated-key",
   }
 }
 fn pk_name(p: Pk) -> &'static str {
@@ -771,6 +927,8 @@ fn pk_name(p: Pk) -> &'static str {
     Pk::WrongAlg => "public-with-ES256",
     Pk::NoAlg => "public-without-alg",
     Pk::NonOkp => "p256-public",
+    Pk::OtherKid => "own-public-other-kid",
+    Pk::NoKid => "own-public-without-kid",
   }
 }
 
@@ -807,6 +965,28 @@ impl<B: Backend> Model for KModel<B> {
         }
       }
     }
+    if self.ext {
+      if n < self.cap {
+        out.push(KOp::Insert(Ins::ValidKid(1)));
+        for j in 0..n {
+          if s.slots[j as usize].origin == Origin::Gen {
+            out.push(KOp::Insert(Ins::XOf(j)));
+          }
+        }
+      }
+      out.push(KOp::Insert(Ins::UnknownAlg));
+      for slot in 0..n {
+        out.push(KOp::Sign(slot, Pk::OtherKid));
+        out.push(KOp::Sign(slot, Pk::NoKid));
+      }
+      if n > 0 {
+        for slot in NEAR {
+          out.push(KOp::Delete(slot));
+          out.push(KOp::Exists(slot));
+          out.push(KOp::Sign(slot, Pk::Own));
+        }
+      }
+    }
   }
   fn next_state(&self, s: &KState, op: KOp) -> Option<KState> {
     self.step(s, op)
@@ -818,10 +998,25 @@ impl<B: Backend> Model for KModel<B> {
 
 // ================================================================================================ (a2) KeyIdStorage histories
 
-pub fn digest(i: u8) -> MethodDigest {
-  MethodDigest::unpack(vec![0, i, 0x5a, i.wrapping_mul(37), 1, 2, 3, 4, i ^ 0xff]).expect("digest")
+/// The digest universe. Digests 0, 1, 2 differ from each other in exactly ONE byte of the packed form: 1 differs
+/// from 0 in the last byte only (most significant byte of the value), 2 differs from 0 in the first value byte
+/// only; every further digest differs from all others in several bytes.
+pub fn digest_bytes(i: u8) -> Vec<u8> {
+  let base = [0u8, 0x11, 0x22, 0x33, 0x44, 0x55, 0x66, 0x77, 0x88];
+  let mut b = base.to_vec();
+  match i {
+    0 => {}
+    1 => b[8] = 0x89,
+    2 => b[1] = 0x10,
+    _ => b = vec![0, i, 0x5a, i.wrapping_mul(37), 1, 2, 3, 4, i ^ 0xff],
+  }
+  b
 }
-const KEY_IDS: [&str; 3] = ["key-id-a", "key-id-b", "key-id-c"];
+pub fn digest(i: u8) -> MethodDigest {
+  MethodDigest::unpack(digest_bytes(i)).expect("digest")
+}
+/// Key ids that are proper prefixes of each other.
+const KEY_IDS: [&str; 3] = ["key-id", "key-id-a", "key-id-ab"];
 pub fn key_id(i: u8) -> KeyId {
   KeyId::new(KEY_IDS[i as usize % 3])
 }
@@ -869,7 +1064,7 @@ fn side_keys_setup<B: Backend>(h: &B::KeyIdsH, mode: Mode) -> Vec<RSlot> {
       if let Ok(Ok(out)) = guard(|| B::block_on(keys.generate(B::key_type(Gk::Ed25519), JwsAlgorithm::EdDSA))) {
         v.push(RSlot { id: out.key_id, public: out.jwk });
       }
-      if let Ok(Ok(id)) = guard(|| B::block_on(keys.insert(insert_jwk(Ins::Valid(1))))) {
+      if let Ok(Ok(id)) = guard(|| B::block_on(keys.insert(insert_jwk(Ins::Valid(1), None)))) {
         v.push(RSlot { id, public: EdKey::new(1).public_with_alg("EdDSA") });
       }
     }
@@ -1082,6 +1277,181 @@ fn res_name<T>(r: &Result<T, String>) -> String {
     Ok(_) => "ok".into(),
     Err(k) => format!("err({k})"),
   }
+}
+
+// ================================================================================================ (a3) MethodDigest
+
+/// One verification method of the (a3) alphabet: indices into M_DIDS, M_FRAGS and the key-material table.
+#[derive(Serialize, Deserialize, Debug, Clone, Copy, PartialEq, Eq, Hash)]
+pub struct MSpec {
+  pub did: u8,
+  pub frag: u8,
+  pub key: u8,
+}
+pub const M_DIDS: [&str; 2] = ["did:example:a", "did:example:b"];
+/// fragments: two unrelated ones, an extension of the first, a prefix of the first two
+pub const M_FRAGS: [&str; 4] = ["key-1", "key-2", "key-1a", "k"];
+/// (representation, key material) of the key table: 0 bare JWK of key 1, 1 the same JWK with alg + kid metadata,
+/// 2 bare JWK of key 2, 3 / 4 publicKeyMultibase of key 1 / 2, 5 publicKeyBase58 of key 2
+pub const M_KEYS: [(&str, u8); 6] = [("jwk", 1), ("jwk+metadata", 1), ("jwk", 2), ("multibase", 1), ("multibase", 2), ("base58", 2)];
+pub fn mspecs() -> Vec<MSpec> {
+  let mut v = Vec::new();
+  for did in 0..M_DIDS.len() as u8 {
+    for frag in 0..M_FRAGS.len() as u8 {
+      for key in 0..M_KEYS.len() as u8 {
+        v.push(MSpec { did, frag, key });
+      }
+    }
+  }
+  v
+}
+fn ed_raw_public(seed: u8) -> Vec<u8> {
+  let k = EdKey::new(seed);
+  let x = k.public.try_okp_params().expect("okp").x.clone();
+  identity_jose::jwu::decode_b64(x).expect("x is base64url")
+}
+fn method_json(m: MSpec) -> serde_json::Value {
+  use identity_verification::MethodData;
+  let (repr, seed) = M_KEYS[m.key as usize % M_KEYS.len()];
+  let data = match repr {
+    "jwk" => MethodData::PublicKeyJwk(EdKey::new(seed).public),
+    "jwk+metadata" => {
+      let mut j = EdKey::new(seed).public_with_alg("EdDSA");
+      j.set_kid(j.thumbprint_sha256_b64());
+      MethodData::PublicKeyJwk(j)
+    }
+    "multibase" => MethodData::new_multibase(ed_raw_public(seed)),
+    _ => MethodData::new_base58(ed_raw_public(seed)),
+  };
+  let did = M_DIDS[m.did as usize % M_DIDS.len()];
+  let mut v = serde_json::json!({
+    "id": format!("{did}#{}", M_FRAGS[m.frag as usize % M_FRAGS.len()]),
+    "controller": did,
+    "type": if repr.starts_with("jwk") { "JsonWebKey" } else { "Ed25519VerificationKey2018" },
+  });
+  if let (Some(o), Ok(serde_json::Value::Object(d))) = (v.as_object_mut(), serde_json::to_value(&data)) {
+    o.extend(d);
+  }
+  v
+}
+fn build_method(m: MSpec) -> Result<identity_verification::VerificationMethod, String> {
+  use identity_core::convert::FromJson;
+  identity_verification::VerificationMethod::from_json_value(method_json(m)).map_err(|e| e.to_string())
+}
+
+/// Evaluate one pair of methods; returns (digest of a, digest of b) in packed form where they could be computed.
+pub fn eval_digest_pair<B: Backend>(col: &Collector, a: MSpec, b: MSpec) -> (Option<Vec<u8>>, Option<Vec<u8>>) {
+  use identity_core::convert::{FromJson, ToJson};
+  col.eval1();
+  let case = SeqCase::Digest { a, b };
+  let viol = |key: &str, what: String| col.violation(key, &format!("{what}; methods {} / {}", method_json(a), method_json(b)), &case);
+  let (ma, mb) = match (build_method(a), build_method(b)) {
+    (Ok(x), Ok(y)) => (x, y),
+    (x, y) => {
+      // the method alphabet is the harness's: a method the library does not parse is not a subject of this part
+      col.outcome(&format!("digest: method of the alphabet not parsed ({:?} / {:?})", x.err(), y.err()));
+      return (None, None);
+    }
+  };
+  let new = |m: &identity_verification::VerificationMethod, who: MSpec| -> Option<MethodDigest> {
+    match guard(|| MethodDigest::new(m)) {
+      Err(p) => {
+        viol(&format!("MethodDigest::new|{}", p.key()), p.msg.clone());
+        None
+      }
+      Ok(Err(e)) => {
+        // methods with a JWK are what the storage layer itself creates: their digest must exist
+        if M_KEYS[who.key as usize % M_KEYS.len()].0.starts_with("jwk") {
+          viol("MethodDigest::new|method-with-fragment-and-public-key-jwk|rejected", format!("{e}"));
+        }
+        col.outcome(&format!("digest: new({}) rejected", M_KEYS[who.key as usize % M_KEYS.len()].0));
+        None
+      }
+      Ok(Ok(d)) => Some(d),
+    }
+  };
+  let (da, db) = match (new(&ma, a), new(&mb, b)) {
+    (Some(x), Some(y)) => (x, y),
+    (x, y) => return (x.map(|d| d.pack()), y.map(|d| d.pack())),
+  };
+  // stability: the digest is a function of the method
+  let again = new(&ma, a);
+  let cloned = new(&ma.clone(), a);
+  if again.as_ref() != Some(&da) || cloned.as_ref() != Some(&da) {
+    viol("MethodDigest::new|same-method|different-digests", format!("{da:?} then {again:?}, for a clone {cloned:?}"));
+  }
+  let reparsed = ma.to_json().ok().and_then(|j| identity_verification::VerificationMethod::from_json(&j).ok());
+  let da2 = match &reparsed {
+    Some(m2) => new(m2, a),
+    None => None,
+  };
+  match (&reparsed, &da2) {
+    (Some(_), Some(d2)) if *d2 == da => {}
+    (None, _) => col.outcome("digest: method does not survive its own JSON form (unjudged)"),
+    (Some(_), d2) => viol("MethodDigest::new|method-after-json-round-trip|different-digest", format!("{da:?} vs {d2:?}")),
+  }
+  // pack / unpack
+  match guard(|| MethodDigest::unpack(da.pack())) {
+    Ok(Ok(d)) if d == da => {}
+    Ok(r) => viol("MethodDigest::unpack|of-packed-digest|does-not-restore-it", format!("{da:?} packed {:?} unpacked {r:?}", da.pack())),
+    Err(p) => viol(&format!("MethodDigest::unpack|{}", p.key()), p.msg.clone()),
+  }
+  // uniqueness: another fragment or another key = another method = another digest
+  let (ka, kb) = (M_KEYS[a.key as usize % M_KEYS.len()], M_KEYS[b.key as usize % M_KEYS.len()]);
+  let must_differ = a.frag != b.frag || ka.1 != kb.1;
+  let relation = if a == b {
+    "same method"
+  } else if must_differ {
+    "other fragment or other key"
+  } else if a.did != b.did && a.key == b.key {
+    "same fragment and key, other DID (unjudged)"
+  } else {
+    "same fragment and key, other representation or metadata (unjudged)"
+  };
+  if must_differ && da == db {
+    viol(
+      if a.frag != b.frag { "MethodDigest::new|methods-with-different-fragments|same-digest" } else { "MethodDigest::new|methods-with-different-keys|same-digest" },
+      format!("both {da:?}"),
+    );
+  }
+  col.outcome(&format!("digest: {relation}: {}", if da == db { "equal digests" } else { "different digests" }));
+  // the digests as keys of the key-id store: recomputed digests find the mapping; one mapping per digest
+  let h = B::open_keyids();
+  let store = B::keyids(&h);
+  let run = guard(|| {
+    let r1 = B::block_on(store.insert_key_id(da.clone(), key_id(0)));
+    let r2 = B::block_on(store.insert_key_id(db.clone(), key_id(1)));
+    let ga = da2.clone().map(|d| B::block_on(store.get_key_id(&d)).ok().map(|k| key_id_index(&k)));
+    let gb = B::block_on(store.get_key_id(&db)).ok().map(|k| key_id_index(&k));
+    (r1.is_ok(), r2.is_ok(), ga, gb)
+  });
+  match run {
+    Err(p) => viol(&format!("KeyIdStorage|{}", p.key()), p.msg.clone()),
+    Ok((r1, r2, ga, gb)) => {
+      if !r1 {
+        viol("KeyIdStorage::insert_key_id|digest-unmapped|rejected", "insert of a method digest into a fresh store".into());
+      } else if da != db {
+        if !r2 {
+          viol("KeyIdStorage::insert_key_id|digest-unmapped|rejected", "the digest of another method was refused".into());
+        } else if gb != Some(1) {
+          viol("KeyIdStorage::get_key_id|disagrees-with-model", format!("digest of the second method: {gb:?}"));
+        }
+        if let Some(ga) = ga {
+          if ga != Some(0) {
+            viol("KeyIdStorage::get_key_id|digest-recomputed-from-an-equal-method|mapping-not-found", format!("{ga:?}"));
+          }
+        }
+      } else {
+        if r2 {
+          viol("KeyIdStorage::insert_key_id|digest-already-mapped|accepted", "equal digests, second insert returned Ok".into());
+        }
+        if gb != Some(0) {
+          viol("KeyIdStorage::insert_key_id|digest-already-mapped|first-mapping-not-intact", format!("{gb:?}"));
+        }
+      }
+    }
+  }
+  (Some(da.pack()), Some(db.pack()))
 }
 
 // ================================================================================================ replay
